@@ -4,11 +4,13 @@ package main
 
 import (
 	"bufio"
+	"bytes"
 	"encoding/json"
 	"flag"
 	"fmt"
 	"hash/fnv"
 	"os"
+	"os/exec"
 	"sort"
 	"time"
 
@@ -64,6 +66,9 @@ func main() {
 	replay := flag.String("replay", "", "execute the Program in this file instead of generating")
 	dump := flag.Bool("dump", false, "print the generated programs instead of running them")
 	deadline := flag.Duration("deadline", 0, "stop starting new runs after this long")
+	minimize := flag.String("minimize", "", "minimise the violation recorded in this replay file (in place)")
+	raceMin := flag.Bool("racemin", false, "with -minimize: the violation is a race report; candidates run in child processes")
+	minBudget := flag.Int("minbudget", 400, "maximal number of minimisation candidates")
 	flag.Parse()
 
 	if err := sim.CheckLayout(); err != nil {
@@ -85,6 +90,10 @@ func main() {
 	defer w.Flush()
 	enc := json.NewEncoder(w)
 
+	if *minimize != "" {
+		os.Exit(doMinimise(*minimize, *raceMin, *minBudget, *budget))
+	}
+
 	if *replay != "" {
 		data, err := os.ReadFile(*replay)
 		if err != nil {
@@ -100,9 +109,6 @@ func main() {
 		if prof == nil {
 			fmt.Fprintln(os.Stderr, "worker: unknown profile in replay file")
 			os.Exit(2)
-		}
-		if *progress != "" {
-			os.WriteFile(*progress, []byte(fmt.Sprint(rf.Program.Run)), 0o644)
 		}
 		opt := &sim.Options{Budget: *budget, Sites: decimal128.VerifSiteCount, Property: prof.Property, Checks: prof.Checks, Trace: true}
 		o := sim.Execute(rf.Program, opt)
@@ -134,16 +140,21 @@ func main() {
 			break
 		}
 		run := *from + uint64(i)**stride
-		if *progress != "" {
-			os.WriteFile(*progress, []byte(fmt.Sprint(run)), 0o644)
-		}
 		p, g := sim.Generate(prof, *seed, run)
+		saveProgress := func() {
+			// the driver reads this file if the race detector kills the process
+			if *progress != "" {
+				b, _ := json.Marshal(p)
+				os.WriteFile(*progress, b, 0o644)
+			}
+		}
+		saveProgress()
 		if *dump {
 			enc.Encode(p)
 			continue
 		}
 		opt := &sim.Options{Budget: *budget, Sites: decimal128.VerifSiteCount, Property: prof.Property, Checks: prof.Checks}
-		opt.Plan = func(ei int, steps [][]uint64) { sim.PlanSchedule(g, p, ei, steps) }
+		opt.Plan = func(ei int, steps [][]uint64) { sim.PlanSchedule(g, p, ei, steps); saveProgress() }
 		if len(sum.Samples) < 2 && i%7 == 3 {
 			opt.Trace = true
 		}
@@ -237,6 +248,91 @@ func main() {
 		fmt.Fprintln(os.Stderr, "worker: simulated deadlock (harness defect)")
 		os.Exit(2)
 	}
+}
+
+func doMinimise(path string, race bool, maxTries int, budget uint64) int {
+	data, err := os.ReadFile(path)
+	if err != nil {
+		fmt.Fprintln(os.Stderr, "worker:", err)
+		return 2
+	}
+	var rf sim.ReplayFile
+	if err := json.Unmarshal(data, &rf); err != nil || rf.Program == nil {
+		fmt.Fprintln(os.Stderr, "worker: bad replay file:", err)
+		return 2
+	}
+	prof := sim.Profiles[rf.Program.Profile]
+	if prof == nil {
+		return 2
+	}
+	var last *sim.Violation
+	var lastRace *sim.RaceReport
+	still := func(c *sim.Program) bool {
+		if race {
+			tmp := path + ".cand"
+			b, _ := json.Marshal(sim.ReplayFile{Program: c})
+			if os.WriteFile(tmp, b, 0o644) != nil {
+				return false
+			}
+			defer os.Remove(tmp)
+			cmd := exec.Command(os.Args[0], "-replay", tmp, "-budget", fmt.Sprint(budget))
+			cmd.Env = append(os.Environ(), "GORACE=halt_on_error=1 exitcode=66")
+			var eb bytes.Buffer
+			cmd.Stderr = &eb
+			cmd.Stdout = nil
+			cmd.Run()
+			rr := sim.ParseRace(eb.String())
+			if rr == nil || rr.Signature() != rf.Signature {
+				return false
+			}
+			lastRace = rr
+			return true
+		}
+		opt := &sim.Options{Budget: budget, Sites: decimal128.VerifSiteCount, Property: prof.Property, Checks: prof.Checks}
+		o := sim.Execute(c, opt)
+		if o.Deadlock {
+			return false
+		}
+		for i := range o.Violations {
+			if o.Violations[i].Sig() == rf.Signature {
+				last = &o.Violations[i]
+				return true
+			}
+		}
+		return false
+	}
+	if !still(rf.Program) {
+		fmt.Fprintln(os.Stderr, "worker: the recorded violation does not reproduce; not minimised")
+		return 3
+	}
+	orig := rf.Program
+	min, tries := sim.Minimise(rf.Program, still, maxTries)
+	if !still(min) { // re-establish last/lastRace for the final program
+		min = orig
+	}
+	rf.Program = min
+	rf.Minimised = true
+	if orig.Size() != min.Size() {
+		rf.Original = orig
+	}
+	rf.Notes = append(rf.Notes, fmt.Sprintf("minimised with %d candidate executions: size %d -> %d", tries, orig.Size(), min.Size()))
+	if last != nil {
+		rf.Detail = last.Detail
+	}
+	if lastRace != nil {
+		rf.RaceText = lastRace.Text
+	}
+	if !race {
+		opt := &sim.Options{Budget: budget, Sites: decimal128.VerifSiteCount, Property: prof.Property, Checks: prof.Checks, Trace: true}
+		o := sim.Execute(min, opt)
+		rf.Trace = o.Trace
+	}
+	b, _ := json.MarshalIndent(&rf, "", " ")
+	if err := os.WriteFile(path, b, 0o644); err != nil {
+		fmt.Fprintln(os.Stderr, "worker:", err)
+		return 2
+	}
+	return 0
 }
 
 func progHash(p *sim.Program) uint64 {
